@@ -112,6 +112,61 @@ cfg_select! {
     }
 }
 
+/// Scheduling hooks for the verification harness, only compiled with
+/// `--cfg a10_verif`. **Not part of the API.**
+#[cfg(a10_verif)]
+#[doc(hidden)]
+pub mod verif {
+    use std::sync::atomic::{AtomicUsize, Ordering};
+    use std::sync::{Mutex, MutexGuard, TryLockError};
+
+    /// Kinds of scheduling points.
+    pub const LOCK: u32 = 1;
+    pub const TRY_LOCK: u32 = 2;
+    pub const LOAD_SHARED: u32 = 3;
+    pub const STORE_SQ_TAIL: u32 = 4;
+    pub const STORE_CQ_HEAD: u32 = 5;
+    pub const RMW_POLLING: u32 = 6;
+    pub const LOAD_BUF_TAIL: u32 = 7;
+    pub const STORE_BUF_TAIL: u32 = 8;
+
+    static HOOK: AtomicUsize = AtomicUsize::new(0);
+
+    /// Set (or clear) the function called at every scheduling point with the
+    /// kind of point and the address of the word or lock involved.
+    pub fn set_hook(hook: Option<fn(u32, usize)>) {
+        HOOK.store(hook.map_or(0, |f| f as usize), Ordering::SeqCst);
+    }
+
+    pub(crate) fn sched_point(kind: u32, addr: usize) {
+        let hook = HOOK.load(Ordering::SeqCst);
+        if hook != 0 {
+            // SAFETY: only `set_hook` writes `HOOK`.
+            let hook: fn(u32, usize) = unsafe { std::mem::transmute(hook) };
+            hook(kind, addr);
+        }
+    }
+
+    /// With a hook installed, acquire `mutex` by spinning over scheduling
+    /// points, instead of blocking in the OS.
+    pub(crate) fn lock_hook<'a, T>(mutex: &'a Mutex<T>) -> Option<MutexGuard<'a, T>> {
+        if HOOK.load(Ordering::SeqCst) == 0 {
+            return None;
+        }
+        loop {
+            sched_point(LOCK, std::ptr::from_ref(mutex).addr());
+            match mutex.try_lock() {
+                Ok(guard) => return Some(guard),
+                Err(TryLockError::Poisoned(err)) => {
+                    mutex.clear_poison();
+                    return Some(err.into_inner());
+                }
+                Err(TryLockError::WouldBlock) => {}
+            }
+        }
+    }
+}
+
 #[doc(inline)]
 pub use config::Config;
 #[doc(no_inline)]
